@@ -12,6 +12,8 @@ LEAN_MODULES = LEAN_MODULES + ['AsynqModel.Theorems.AuditFixes']
 THEOREMS = THEOREMS + ["AsynqModel.Core." + n for n in ['C06_block_registered', 'C06_registered_iff_open', 'C06_own_block_resumed', 'C06_block_registered_needs_guard', 'C06_nonasync_only_any', 'C06_nonasync_only_reach', 'C06_suspNA_own_context']]
 LEAN_MODULES = LEAN_MODULES + ['AsynqModel.Theorems.C06d']
 THEOREMS = THEOREMS + ["AsynqModel.Core." + n for n in ['C06_awaiting_implies_resumed', 'C06_caller_awaits_running', 'C06_awaiting_caller_resumed', 'C06_active_iff_awaiting_tree', 'C06_open_resumed_implies_awaiting', 'C06_resumed_iff_on_spine', 'C06_scheduler_of_running_resumed', 'C06d_shared_not_resumed', 'Spec_C06strict_accepts', 'checkC06strict_of_checkC06', 'C06d_iff_needs_guard']]
+LEAN_MODULES = LEAN_MODULES + ['AsynqModel.Theorems.NoNA']
+THEOREMS = THEOREMS + ["AsynqModel.Core." + n for n in ['C06_resumed_implies_awaiting_any', 'C06_paused_unless_awaiting_any', 'C06_paused_at_outer_flush_any', 'C06_paused_at_ret_any']]
 MIX = [('yield_ctx',5),('full',3),('nonasync',3)]
 RULE = ("grammar-generated task programs (profiles %s; trees and DAGs of tasks, 1-3 batch kinds with priority overrides "
         "and raising flushes, nested yield structures, errors, try/except, synchronous re-entry, contexts) interpreted on "
